@@ -335,7 +335,7 @@ def run_waits(ctx, desc):
             mark = len(bus.log)
             pm.transmit()
             sent["ts"] = [f for f in list(bus.log)[mark:] if f.src == "producer"][0].ts
-        status, val = waits.run_waiter(lambda: cm.wait_for_reception(5), cond, deliver)
+        status, val = waits.run_waiter(lambda: cm.wait_for_reception(40), cond, deliver)
         bus.quiesce()
         ctx.count("wait_cases")
         ctx.case(("wait-reception", layout_class(fields)), nontrivial=True)
@@ -370,7 +370,7 @@ def run_waits(ctx, desc):
         for same_ts in (0.0, 1234.5):
             raw = bytes(cm.data)
             cnet.notify(0x180 + K, bytearray(raw), same_ts)          # earlier frame, nobody waiting
-            status, val = waits.run_waiter(lambda: cm.wait_for_reception(4), cond,
+            status, val = waits.run_waiter(lambda: cm.wait_for_reception(40), cond,
                                            lambda: cnet.notify(0x180 + K, bytearray(raw), same_ts))
             ctx.count("wait_cases")
             ctx.case(("wait-reception-same-timestamp", same_ts), nontrivial=True)
@@ -389,7 +389,7 @@ def run_waits(ctx, desc):
             mark = len(bus.log)
             pm.transmit()
             sent2["ts"] = [f for f in list(bus.log)[mark:] if f.src == "producer"][0].ts
-        res = waits.run_waiters([lambda: cm.wait_for_reception(4), lambda: cm.wait_for_reception(4)], cond, deliver2)
+        res = waits.run_waiters([lambda: cm.wait_for_reception(40), lambda: cm.wait_for_reception(40)], cond, deliver2)
         bus.quiesce()
         ctx.count("wait_cases")
         ctx.case(("wait-reception-several",), nontrivial=True)
